@@ -47,6 +47,25 @@ def make (dbg : Bool) (t : V3 K) (q : Quat K) : Except Err (SE3 K) := do
   pure ⟨t, q⟩
 end SE3
 
+namespace SE3
+def ofXYZRPY (dbg : Bool) (x y z roll pitch yaw : K) : Except Err (SE3 K) :=
+  let qz := Quat.ofAngleAxis yaw ⟨nat 0, nat 0, nat 1⟩
+  let qy := Quat.ofAngleAxis pitch ⟨nat 0, nat 1, nat 0⟩
+  let qx := Quat.ofAngleAxis roll ⟨nat 1, nat 0, nat 0⟩
+  make dbg ⟨x, y, z⟩ ((qz.mul qy).mul qx)
+/-- `SE3(t, AngleAxis)` -/
+def ofTAA (dbg : Bool) (t : V3 K) (angle : K) (axis : V3 K) : Except Err (SE3 K) :=
+  make dbg t (Quat.ofAngleAxis angle axis)
+/-- `SE3(Isometry)`: `SE3(h.translation(), Quaternion(h.rotation()))`, 4×4 row-major -/
+def ofIsometry (dbg : Bool) (h : List K) : Except Err (SE3 K) :=
+  let g (r c : Nat) : K := h.getD (4 * r + c) (nat 0)
+  make dbg ⟨g 0 3, g 1 3, g 2 3⟩
+    (Quat.ofRot ⟨g 0 0, g 0 1, g 0 2, g 1 0, g 1 1, g 1 2, g 2 0, g 2 1, g 2 2⟩)
+def setQuat (dbg : Bool) (X : SE3 K) (q : Quat K) : Except Err (SE3 K) := do
+  checkUnit dbg q.norm
+  pure ⟨X.t, q⟩
+end SE3
+
 namespace SE3T
 def asSO3 (t : SE3T K) : SO3T K := ⟨t.ang⟩
 def neg (t : SE3T K) : SE3T K := ⟨t.lin.neg, t.ang.neg⟩
